@@ -573,23 +573,26 @@ static bool more_probe(std::string const& op, Toks& in, Out& impl, Out& ref)
         return true;
     }
     if (op == "tostr") {
-        // to_string<Cap>(value) for int / long / unsigned / unsigned long long
+        // to_string<Cap>(value): all six overloads (int, long, long long, unsigned, unsigned long = "ul", unsigned long long = "ulong")
         auto cap = in.num(); auto ty = in.str(); auto v = in.sz();
         auto digits = [](unsigned long long m) { int d = 1; while (m >= 10) { m /= 10; ++d; } return d; };
         auto call = [&](auto x) {
             if (cap == 0) { sink = static_cast<long long>(etl::to_string<0>(x).size()); } else if (cap == 1) { sink = static_cast<long long>(etl::to_string<1>(x).size()); }
             else if (cap == 3) { sink = static_cast<long long>(etl::to_string<3>(x).size()); } else if (cap == 10) { sink = static_cast<long long>(etl::to_string<10>(x).size()); }
+            else if (cap == 19) { sink = static_cast<long long>(etl::to_string<19>(x).size()); }
             else { sink = static_cast<long long>(etl::to_string<20>(x).size()); }
         };
         watch_none(impl, [&] {
             if (ty == "int") { call(static_cast<int>(v)); }
             else if (ty == "long") { call(static_cast<long>(v)); }
+            else if (ty == "llong") { call(static_cast<long long>(v)); }
+            else if (ty == "ul") { call(static_cast<unsigned long>(v)); }
             else if (ty == "uint") { call(static_cast<unsigned>(v)); }
             else { call(static_cast<unsigned long long>(v)); }
         });
         bool neg = false; unsigned long long mag = v;
         if (ty == "int") { auto x = static_cast<long long>(static_cast<int>(v)); neg = x < 0; mag = neg ? 0ULL - static_cast<unsigned long long>(x) : static_cast<unsigned long long>(x); }
-        else if (ty == "long") { auto x = static_cast<long long>(v); neg = x < 0; mag = neg ? 0ULL - static_cast<unsigned long long>(x) : static_cast<unsigned long long>(x); }
+        else if (ty == "long" || ty == "llong") { auto x = static_cast<long long>(v); neg = x < 0; mag = neg ? 0ULL - static_cast<unsigned long long>(x) : static_cast<unsigned long long>(x); }
         else if (ty == "uint") { mag = static_cast<unsigned>(v); }
         int len = digits(mag) + (neg ? 1 : 0);
         doc(ref, len <= cap);
@@ -731,6 +734,32 @@ bool vh::run_case(std::string const& op, Toks& in, Out& impl, Out& ref)
         else if (o == "first" || o == "last" || o == "tfirst" || o == "tlast") { pre = a <= sz; }
         else { pre = a <= sz && (b == ~0ULL || static_cast<unsigned __int128>(a) + b <= sz); }
         doc(ref, pre);
+        return true;
+    }
+    if (op == "spanctor") {
+        // span<int, Extent>(pointer, count) / (sized contiguous range of count elements) / (span<int, dynamic_extent> of count
+        // elements), Extent in {0, 3, dynamic_extent}: [span.cons] extent == dynamic_extent || count == extent
+        auto ext = in.sz(); auto which = in.str(); auto count = in.sz();
+        static int a[8] = {1, 2, 3, 4, 5, 6, 7, 8};
+        etl::static_vector<int, 8> v;
+        if (which == "rng") { if (count > 8) { return false; } for (u64 i = 0; i < count; ++i) { v.push_back(static_cast<int>(i)); } }
+        etl::span<int> d(a, static_cast<std::size_t>(count));
+        bool known = true;
+        auto make = [&]<std::size_t E>() {
+            if (which == "ptr") { etl::span<int, E> s(a, static_cast<std::size_t>(count)); sink = static_cast<long long>(s.size()); }
+            else if (which == "rng") { etl::span<int const, E> s(v); sink = static_cast<long long>(s.size()); }
+            else if (which == "dyn") { etl::span<int, E> s(static_cast<etl::span<int> const&>(d)); sink = static_cast<long long>(s.size()); }
+            else if (which == "dynl") { etl::span<int, E> s(d); sink = static_cast<long long>(s.size()); }   // non-const lvalue span: the range constructor is the better match
+            else { known = false; }
+        };
+        watch_none(impl, [&] {
+            if (ext == 0) { make.template operator()<0>(); }
+            else if (ext == 3) { make.template operator()<3>(); }
+            else if (ext == ~0ULL) { make.template operator()<etl::dynamic_extent>(); }
+            else { known = false; }
+        });
+        if (!known) { return false; }
+        doc(ref, ext == ~0ULL || count == ext);
         return true;
     }
     if (op == "sv") {
